@@ -57,6 +57,12 @@ META = {
     ],
     "assumptions": [
         "float32 systems are restricted to condition <= 1e3 (kappa*max(m,n)*eps << 1), float64 to <= 1e8",
+        "LSTSQ(driver='gels') assumes full rank (LAPACK): on rank-deficient input it violates the normal-equation contract of "
+        "lstsq_forward_ls; the harness runs gels, and the configurations with a zero / negative cut-off, on full-rank systems only",
+        "Cholesky: cholesky_ex reads one triangle; theorems and oracles are about symmetric arguments (IsSymm), as in the property",
+        "CG theorems are exact-arithmetic statements under NoBreakdown (no vanishing denominator), which holds on SPD systems with "
+        "tol > 0 (cg_spd_no_breakdown); tol <= 0 and non-SPD matrices (where the code can return NaN) are outside the property",
+        "CG shapes: a rank-2 A with ONE right-hand side (n,) or (n,1) (cgInDomain); cgEntry itself accepts any rank pair",
         "compressed index arrays satisfy torch's invariants (sorted, distinct inside a row/column): hypothesis `WF`",
         "CG: single systems (b of shape (n,1) or (n,)), as documented",
     ],
@@ -242,6 +248,22 @@ def values_differ(xp, x, eps):
     return bool(((a - b_).abs() > 64 * eps * a.shape[-2] * torch.maximum(a.abs(), b_.abs()).amax(dim=(-2, -1), keepdim=True)).any())
 
 
+class default_dtype:
+    """(25) process-wide default dtype switched around the implementation call only (restored afterwards)"""
+
+    def __init__(self, name):
+        self.name = name
+
+    def __enter__(self):
+        self.old = torch.get_default_dtype()
+        if self.name:
+            torch.set_default_dtype(tdt(self.name))
+
+    def __exit__(self, *a):
+        torch.set_default_dtype(self.old)
+        return False
+
+
 def same_storage(x, t):
     try:
         return (isinstance(x, torch.Tensor) and isinstance(t, torch.Tensor) and x.layout == torch.strided
@@ -275,6 +297,11 @@ SOLVER_CFG = {
     "PINV:both": ("PINV", (), {"atol": 0.3, "rtol": 1e-3}),        # rtol != atol, both active
     "PINV:herm+rtol": ("PINV", (), {"rtol": 1e-2, "hermitian": True}),
     "PINV:pos": ("PINV", (None, 1e-2, False), {}),                  # positional constructor arguments
+    "PINV:negatol": ("PINV", (), {"atol": -1.0}),                   # sign of the scalar parameters: torch takes max(atol, rtol*s1)
+    "PINV:negrtol": ("PINV", (), {"rtol": -1.0}),
+    "PINV:zero": ("PINV", (), {"atol": 0.0, "rtol": 0.0}),
+    "LSTSQ:negrcond": ("LSTSQ", (), {"rcond": -1.0, "driver": "gelsd"}),   # LAPACK: rcond < 0 means machine precision
+    "LSTSQ:zerorcond": ("LSTSQ", (), {"rcond": 0.0, "driver": "gelss"}),
     "LSTSQ": ("LSTSQ", (), {}),
     "LSTSQ:gelsd": ("LSTSQ", (), {"driver": "gelsd"}),
     "LSTSQ:gelss": ("LSTSQ", (), {"driver": "gelss"}),
@@ -289,7 +316,10 @@ TRUNC_CUT = {   # documented cut-off of the configured tolerances, as a function
     "PINV:atol1": lambda s1: 0.5, "PINV:both": lambda s1: max(0.3, 1e-3 * s1), "PINV:herm+rtol": lambda s1: 1e-2 * s1,
     "PINV:pos": lambda s1: 1e-2 * s1, "LSTSQ:rcond": lambda s1: 1e-2 * s1, "LSTSQ:pos": lambda s1: 1e-2 * s1,
 }
-DEFAULT_CFG = ("PINV", "LSTSQ", "LSTSQ:gelsd", "LSTSQ:gelss", "LSTSQ:gelsy", "LSTSQ:gels", "PINV:herm")
+DEFAULT_CFG = ("PINV", "LSTSQ", "LSTSQ:gelsd", "LSTSQ:gelss", "LSTSQ:gelsy", "LSTSQ:gels", "PINV:herm",
+               "PINV:negatol", "PINV:negrtol", "PINV:zero", "LSTSQ:negrcond", "LSTSQ:zerorcond")
+# configurations whose cut-off is (next to) zero: judged on full-rank systems only, like the full-rank driver gels
+FULLRANK_CFG = ("LSTSQ:gels", "PINV:negrtol", "PINV:zero", "LSTSQ:negrcond", "LSTSQ:zerorcond", "PINV:negatol")
 HERM_CFG = ("PINV:herm", "PINV:herm+rtol")
 
 
@@ -304,7 +334,19 @@ def ls_item(it, m, n, dtype):
     g = gen(it["seed"])
     dt = tdt(dtype)
     kind = it["kind"]
-    if kind == "float":
+    if kind == "diag":          # exact data: diagonal matrix with the given singular values (ties at a cut-off are EXACT)
+        r = min(m, n)
+        dv = torch.tensor((it["svs"] + [0.0] * r)[:r], dtype=torch.float64)
+        A = torch.zeros(m, n, dtype=torch.float64)
+        A[torch.arange(r), torch.arange(r)] = dv
+        A = A.to(dt)
+        rr = int((dv != 0).sum())
+        keep = [i for i in range(r) if float(dv[i]) != 0.0]
+        B = torch.zeros(m, rr, dtype=torch.float64); C = torch.zeros(rr, n, dtype=torch.float64)
+        for t_, i_ in enumerate(keep):
+            B[i_, t_] = A[i_, i_].double(); C[t_, i_] = 1.0
+        r = rr
+    elif kind == "float":
         r = min(m, n)
         U, _ = torch.linalg.qr(torch.randn(m, m, generator=g, dtype=torch.float64))
         V, _ = torch.linalg.qr(torch.randn(n, n, generator=g, dtype=torch.float64))
@@ -325,7 +367,7 @@ def ls_item(it, m, n, dtype):
             B, C = Ad, torch.eye(n, dtype=torch.float64)
         else:
             B, C = torch.eye(m, dtype=torch.float64), Ad
-    else:  # exact integer factorisation, rank r
+    elif kind == "int":  # exact integer factorisation, rank r
         r = it["r"]
         lim = 16 if dtype == "float64" else 4
         B8 = torch.randint(-lim, lim + 1, (m, r), generator=g, dtype=torch.int64)
@@ -350,6 +392,12 @@ def ls_item(it, m, n, dtype):
         b = torch.zeros(m, 1, dtype=dt)
     elif bk == "consistent":
         b = (A.double() @ torch.randn(n, 1, generator=g, dtype=torch.float64)).to(dt)
+    elif bk == "negative":      # every entry negative: max(b) < 0, sum(b) < 0
+        b = (-torch.rand(m, 1, generator=g, dtype=torch.float64) - 0.25).to(dt)
+    elif bk == "sumzero":       # non-zero entries that cancel exactly
+        h_ = torch.randint(1, 9, ((m + 1) // 2, 1), generator=g).double()
+        b = torch.cat([h_, -h_])[:m] if m % 2 == 0 else torch.cat([h_[:-1], -h_[:-1], torch.zeros(1, 1, dtype=torch.float64)])
+        b = b.to(dt)
     else:
         b = torch.randn(m, 1, generator=g, dtype=torch.float64).to(dt)
     b = b * (2.0 ** it.get("bscale", 0))
@@ -404,7 +452,8 @@ def check_ls(ctx: Ctx, case, lines_out=None) -> bool:
     default_cfg = name in DEFAULT_CFG  # others: wrapper stream + truncated-SVD law
     gm = case.get("grad", "plain")
     try:
-        x = call_in_mode(gm, sol, [A, b]) if gm != "plain" else sol(A, b)
+        with default_dtype(case.get("defdt")):
+            x = call_in_mode(gm, sol, [A, b]) if gm != "plain" else sol(A, b)
     except Exception as e:
         if "_post" in case:
             case["_post"]()
@@ -484,6 +533,14 @@ def check_ls(ctx: Ctx, case, lines_out=None) -> bool:
                                   f"c10.pinvsvd {m} {n} {Ss.numel()} {0 if at_ is None else 1} {to_wire(float(at_ or 0.0))} "
                                   f"{0 if rt_ is None else 1} {to_wire(float(rt_ or 0.0))} {to_wire(eps)} {wl(Af[k])} {wl(Us)} {wl(Ss)} "
                                   f"{wl(Vhs.mT)} {wl(bf[k])}"))
+            if name in HERM_CFG and m == n and n > 0:
+                # hermitian=True: the kernel is eigh of ONE triangle (model pinvForwardEigh, theorem pinv_hermitian_forward_minnorm)
+                lam_, Q_ = torch.linalg.eigh(Af[k])
+                at_, rt_ = getattr(sol, "atol", None), getattr(sol, "rtol", None)
+                rec["eig_l"] = lam_
+                lines_out.append((case, rec, "eigh",
+                                  f"c10.pinveigh {n} {0 if at_ is None else 1} {to_wire(float(at_ or 0.0))} {0 if rt_ is None else 1} "
+                                  f"{to_wire(float(rt_ or 0.0))} {to_wire(eps)} {wl(Af[k])} {wl(Q_)} {wl(lam_)} {wl(bf[k])}"))
             if name.startswith("PINV"):
                 lines_out.append((case, rec, "matvec", f"c10.matvec {n} {m} {wl(Kf[k])} {wl(bf[k])}"))
                 if default_cfg:
@@ -506,6 +563,8 @@ def check_ls(ctx: Ctx, case, lines_out=None) -> bool:
             # only singular values within rounding distance of the cut-off are ambiguous (the spacing classes put values
             # at cut*(1 +- 1e-3), cut*(1 +- 0.3) on purpose)
             band = max(1e-9 if dtype == "float64" else 2e-4, 200 * eps * s1 / max(cut, 1e-300))
+            if case["items"][k].get("kind") == "diag":
+                band = -1.0          # exact data: a singular value exactly AT the cut-off is a legitimate, decidable tie (dropped)
             if any(abs(float(v) - cut) <= band * cut for v in sv):
                 ctx.count("ls.trunc.ambiguous")
                 continue
@@ -571,6 +630,8 @@ def judge_ls(ctx: Ctx, case, rec, what, rep):
             raise common.InfraError(f"torch.linalg.svd violates its contract: |U^TU-1|={cu:.1e} |V^TV-1|={cv:.1e} |A-USV^T|={ca:.1e}")
         # ambiguous only when a singular value is within rounding distance of the cut-off
         band = max((1e-9 if dtype == "float64" else 2e-4) * cut, 2 * eps * s1_)
+        if case["items"][rec["k"]].get("kind") == "diag":
+            band = -1.0
         if any(abs(float(t) - cut) <= band and not (float(t) == 0.0 and cut == 0.0) for t in sv):
             ctx.count("ls.svd.ambiguous")
             return
@@ -587,6 +648,29 @@ def judge_ls(ctx: Ctx, case, rec, what, rep):
                          f"(atol {getattr(make_solver(name), 'atol', None)}, rtol {getattr(make_solver(name), 'rtol', None)}) by {d:.3e} > {tol:.3e} "
                          f"({m}x{n}, kept {len(kept)} of {len(sv)} singular values, {dtype})" + sfx(case))
             ctx.disagree("ls.svd", cc, f"|x - x_model| = {d:.3e} > {tol:.3e}")
+    elif what == "eigh":
+        v = nums(rep)
+        cut, xm, (cq, ca) = v[0], torch.tensor(v[1:1 + n], dtype=torch.float64), v[1 + n:]
+        la = rec["eig_l"].abs()
+        s1_ = float(la.max())
+        if cq > 1e-10 or ca > 1e-10 * (s1_ + 1e-300):
+            raise common.InfraError(f"torch.linalg.eigh violates its contract: |Q^TQ-1|={cq:.1e} |A-QLQ^T|={ca:.1e}")
+        band = max((1e-9 if dtype == "float64" else 2e-4) * cut, 2 * eps * s1_)
+        if any(abs(float(t) - cut) <= band and not (float(t) == 0.0 and cut == 0.0) for t in la):
+            ctx.count("ls.eigh.ambiguous")
+            return
+        kept = [float(t) for t in la if float(t) > cut]
+        srk = min(kept) if kept else 0.0
+        kk = (s1_ / srk) if kept else 1.0
+        bn_ = float(rec["b"].norm())
+        tol = 64 * eps * dim * kk * (float(xm.norm()) + (bn_ / srk if kept else 0.0))
+        d = float((rec["x"] - xm).norm())
+        ctx.count("ls.eigh")
+        stat("ls.eigh." + dtype, d / (tol + 1e-300))
+        if d > tol + 1e-300:
+            ctx.fail(cc, f"ls-eigh: {name} differs from Q L^+ Q^T b (eigenvalues of modulus <= {cut:.3e} dropped) by {d:.3e} > {tol:.3e} "
+                         f"({n}x{n}, kept {len(kept)} of {n} eigenvalues, {dtype})" + sfx(case))
+            ctx.disagree("ls.eigh", cc, f"|x - x_model| = {d:.3e} > {tol:.3e}")
     elif what == "tcert":
         g, res, xn, bn, an = nums(rep)
         scale = s1 * (s1 * xn + bn)
@@ -762,7 +846,8 @@ def run_chol_cases(ctx: Ctx, cases):
             raised = None
             gm = case.get("grad", "plain")
             try:
-                x = call_in_mode(gm, sol, [A, b]) if gm != "plain" else sol(A, b)
+                with default_dtype(case.get("defdt")):
+                    x = call_in_mode(gm, sol, [A, b]) if gm != "plain" else sol(A, b)
             except Exception as e:
                 raised = e
             if "_post" in case:
@@ -909,6 +994,8 @@ def spd_matrix(n, kind, cexp, g):
             return torch.ones(n, n, dtype=torch.float64)
         shift = top / (10.0 ** cexp)
         return A + shift * torch.eye(n, dtype=torch.float64)
+    if kind == "ident":     # all eigenvalues equal (exact)
+        return torch.eye(n, dtype=torch.float64)
     Q, _ = torch.linalg.qr(torch.randn(n, n, generator=g, dtype=torch.float64))
     if kind == "log":
         lam = torch.logspace(0, -cexp, n, dtype=torch.float64) if n > 1 else torch.ones(1, dtype=torch.float64)
@@ -952,6 +1039,18 @@ def cg_build(case):
         b = torch.zeros(n, 1, dtype=dt)
     elif case["b"] == "e0":
         b = torch.zeros(n, 1, dtype=dt); b[0, 0] = 2.0 ** case["bscale"]
+    elif case["b"] == "negative":
+        b = ((-torch.rand(n, 1, generator=g, dtype=torch.float64) - 0.25) * 2.0 ** case["bscale"]).to(dt)
+    elif case["b"] == "sumzero":
+        h_ = torch.randint(1, 9, ((n + 1) // 2, 1), generator=g).double()
+        b = torch.cat([h_, -h_])[:n] if n % 2 == 0 else torch.cat([h_[:-1], -h_[:-1], torch.ones(1, 1, dtype=torch.float64) * 0])
+        if n == 1:
+            b = torch.ones(1, 1, dtype=torch.float64)
+        b = (b * 2.0 ** case["bscale"]).to(dt)
+    elif case["b"] == "34":     # |b| = 5 exactly
+        b = torch.zeros(n, 1, dtype=dt); b[0, 0] = 3.0
+        if n > 1:
+            b[1, 0] = 4.0
     xs = torch.linalg.solve(A.double(), b.double())
     xk = case["x0"]
     if xk == "none":
@@ -971,6 +1070,16 @@ def cg_build(case):
         x0 = (-3 * xs + 5 * 2.0 ** (case["bscale"] - case["ascale"])).to(dt)
     elif xk == "exact":
         x0 = xs.to(dt)
+    elif xk == "negative":
+        x0 = (-(xs.abs() + 2.0 ** (case["bscale"] - case["ascale"]))).to(dt)
+    elif xk == "sumzero":
+        h_ = torch.randint(1, 9, ((n + 1) // 2, 1), generator=g).double() * 2.0 ** (case["bscale"] - case["ascale"])
+        x0 = (torch.cat([h_, -h_])[:n] if n % 2 == 0 else torch.cat([h_[:-1], -h_[:-1], h_[-1:] * 0])).to(dt)
+        if n == 1:
+            x0 = torch.full((1, 1), 2.0 ** (case["bscale"] - case["ascale"]), dtype=dt)
+    elif xk == "tie":           # |b - A x0| == tol*|b| EXACTLY (A = identity, b = (3,4,0..), tol = 0.2 -> 1)
+        x0 = b.clone()
+        x0[min(1, n - 1), 0] -= 5.0 * cg_tol(case) if n > 1 else 3.0 * cg_tol(case)
     elif xk in ("near+", "near-"):
         # spacing class of the stopping threshold: initial residual just above / just below tol*|b| (either sign)
         u = torch.randn(n, 1, generator=g, dtype=torch.float64)
@@ -1044,7 +1153,10 @@ def cg_call(case, A, b, x0, M, spy=False):
         return sol(a_, b_, x_, m_)
 
     gm = case.get("grad", "plain")
-    if "_buf" in case:       # stale-read histories hand over the caller's very own tensor objects (no wrapper)
+    if case.get("defdt"):
+        with default_dtype(case["defdt"]):
+            x = call_in_mode(gm, go, [Al, bb, xx, Ml]) if gm != "plain" else go(Al, bb, xx, Ml)
+    elif "_buf" in case:       # stale-read histories hand over the caller's very own tensor objects (no wrapper)
         x = go(Al, bb, xx, Ml)
     elif gm != "plain":
         x = call_in_mode(gm, go, [Al, bb, xx, Ml])
@@ -1315,10 +1427,11 @@ def check_sparse(ctx: Ctx, case, lines_out=None):
     cc = dict(case)
     fn = O().bsr_bsc_matmul if case["api"] == "bsr_bsc_matmul" else O()._sparse_csr_mm
     try:
-        if case.get("style") == "kw":
-            y = fn(bsr=bsr, bsc=bsc) if case["api"] == "bsr_bsc_matmul" else fn(mat1=bsr, mat2=bsc)
-        else:
-            y = fn(bsr, bsc)
+        with default_dtype(case.get("defdt")):
+            if case.get("style") == "kw":
+                y = fn(bsr=bsr, bsc=bsc) if case["api"] == "bsr_bsc_matmul" else fn(mat1=bsr, mat2=bsc)
+            else:
+                y = fn(bsr, bsc)
     except Exception as e:
         ctx.fail(cc, f"sparse-raises: {case['api']} raised on a valid BSR x BSC pair (grid {sm}x{sn}x{sp}, blocks {dm}x{dn}x{dp}, "
                      f"nnz {len(col)}/{len(row)}): {type(e).__name__}: {str(e)[:120]}")
@@ -1633,6 +1746,8 @@ def corner_cases():
     C["sparse"] += [sp(sm=3, sn=3, sp=3, dm=3, dn=3, dp=3, seed=9020, style="kw"), sp(sm=2, sn=2, sp=2, dm=2, dn=2, dp=2, seed=9021),
                     sp(sm=1, sn=7, sp=1, dm=1, dn=1, dp=1, da=1.0, db=1.0, seed=9022), sp(sm=5, sn=1, sp=5, dm=3, dn=1, dp=3, pa="full", pb="full", seed=9023),
                     sp(api="_sparse_csr_mm", style="kw", seed=9024)]
+    C["sparse"] += [sp(sm=20, sn=33, sp=17, dm=2, dn=1, dp=2, da=0.5, db=0.5, seed=9030, stale=False),     # (19) large grid / nnz
+                    sp(sm=32, sn=32, sp=32, dm=1, dn=1, dp=1, da=0.3, db=0.3, seed=9031, stale=False)]
     C["sparse"] += [
         sp(pa="empty"), sp(pb="empty"), sp(pa="empty", pb="empty"), sp(pa="full", pb="full"), sp(disjoint=True, da=1.0, db=1.0),
         sp(pa="lastcol", pb="lastrow"), sp(pa="firstcol", pb="lastrow"), sp(pa="lastcol", pb="firstrow"), sp(pa="diag", pb="diag"),
@@ -1675,6 +1790,201 @@ def check_cg_entry(ctx: Ctx):
                 ctx.fail(case, f"shape: CG with a rank-{k} right-hand side returned {getattr(x, 'shape', None)} / a wrong solution")
         elif out == "ok":
             ctx.disagree("cg.entry", case, f"model rejects rank {k} ({rep}), implementation returned")
+
+
+def check_large(ctx: Ctx):
+    """(19) large batches (2^14+1, and 2^16+1 where cheap / in the thorough tier) of tiny systems in several shapes, a
+    large single CG system and a large block grid.  Oracles that need no model on 10^5 items: split-consistency
+    (f(x) == cat(f(x[:a]), f(x[a:])) bit for bit), single-item consistency for the first / last / a random item, the
+    float64 normal-equation / residual law on every item, and the exact certificate (model) on the LAST and a random item."""
+    g = gen(1900)
+    lines, meta = [], []
+    for name, mk, Bs in (("PINV", lambda: make_solver("PINV"), [16385] if ctx.quick else [16385, 65537]),
+                         ("LSTSQ", lambda: make_solver("LSTSQ"), [16385] if ctx.quick else [16385, 65537]),
+                         ("Cholesky", lambda: S().Cholesky(), [16385, 65537])):
+        for B in Bs:
+            m, n = (2, 2) if name == "Cholesky" else (3, 2)
+            Z = torch.randn(B, m, n, generator=g, dtype=torch.float64)
+            A = Z.mT @ Z + torch.eye(n, dtype=torch.float64) if name == "Cholesky" else Z
+            b = torch.randn(B, A.shape[-2], 1, generator=g, dtype=torch.float64)
+            if name != "Cholesky":
+                A[B // 3] = 0.0           # a zero matrix and a rank-one item in the middle and at the very end
+                A[-1, :, 1] = 2 * A[-1, :, 0]
+            case = {"kind": "large", "solver": name, "B": B}
+            ctx.note_case(("large", name, B), True)
+            ctx.count(f"large.{name}.{B}")
+            try:
+                x = mk()(A, b)
+                ok = isinstance(x, torch.Tensor) and tuple(x.shape) == (B, n, 1)
+                if not ok:
+                    ctx.fail(case, f"shape: {name} on a batch of {B} returned {getattr(x, 'shape', None)}")
+                    continue
+                for a_ in (1, B // 2, 4096, B - 1):
+                    xs = torch.cat([mk()(A[:a_], b[:a_]), mk()(A[a_:], b[a_:])])
+                    if not torch.equal(torch.nan_to_num(x), torch.nan_to_num(xs)):
+                        bad = int(((x - xs).abs().amax(dim=(-2, -1)) > 0).nonzero()[0])
+                        ctx.fail(case, f"large-split: {name} on a batch of {B} differs from the same batch solved in two parts "
+                                       f"[:{a_}] / [{a_}:] (first differing item {bad})")
+                        break
+                for i in (0, B - 1, int(torch.randint(0, B, (), generator=g))):
+                    if not torch.equal(torch.nan_to_num(x[i:i + 1]), torch.nan_to_num(mk()(A[i:i + 1], b[i:i + 1]))):
+                        ctx.fail(case, f"large-item: item {i} of a batch of {B} solved by {name} differs from the same item solved alone")
+                        break
+                # shapes with the same element count
+                if name != "LSTSQ" or not ctx.quick:
+                    x2 = mk()(A.reshape(1, B, *A.shape[1:]), b.reshape(1, B, *b.shape[1:]))
+                    if tuple(x2.shape) != (1, B, n, 1) or not torch.equal(torch.nan_to_num(x2[0]), torch.nan_to_num(x)):
+                        ctx.fail(case, f"large-split: {name} on batch shape (1,{B}) differs from batch shape ({B},)")
+                # the law on every item (float64, vectorised)
+                res = A.mT @ (A @ x - b)
+                sc = torch.linalg.matrix_norm(A, 2) * (torch.linalg.matrix_norm(A, 2) * x.norm(dim=(-2, -1)) + b.norm(dim=(-2, -1)))
+                kap = torch.ones(B, dtype=torch.float64)
+                if name == "PINV":
+                    sv = torch.linalg.svdvals(A)
+                    nz = torch.where(sv > 1e-12 * sv[:, :1].clamp_min(1e-300), sv, torch.full_like(sv, float("inf"))).amin(dim=-1)
+                    kap = torch.where(torch.isfinite(nz), sv[:, 0] / nz.clamp_min(1e-300), kap)
+                badm = res.norm(dim=(-2, -1)) > 64 * EPS["float64"] * 3 * sc * kap + 1e-300
+                if bool(badm.any()):
+                    i = int(badm.nonzero()[0])
+                    ctx.fail({**case, "item": i}, f"ls-certificate: item {i} of a batch of {B} solved by {name} violates the normal equations "
+                                                  f"(|A^T(Ax-b)| = {float(res[i].norm()):.3e})")
+                for i in (B - 1, int(torch.randint(0, B, (), generator=g))):
+                    lines.append(f"c10.lscert {A.shape[-2]} {n} {wl(A[i])} {wl(b[i])} {wl(x[i])}")
+                    meta.append((case, i, A[i], float(kap[i])))
+            except Exception as e:
+                ctx.fail(case, f"raises: {name} raised on a batch of {B} small systems: {type(e).__name__}: {str(e)[:100]}")
+    for rep, (case, i, Ai, kp) in zip(ctx.driver.run(lines), meta):
+        gg, res, xn, bn, an = nums(rep)
+        s1 = float(torch.linalg.matrix_norm(Ai, 2))
+        tol = 64 * EPS["float64"] * 3 * s1 * (s1 * xn + bn) * kp
+        if gg > tol + 1e-300:
+            ctx.fail({**case, "item": i}, f"ls-certificate: item {i} of the large batch: exact |A^T(Ax-b)| = {gg:.3e} > {tol:.3e}")
+    # one large CG system per layout (well conditioned: the float iteration needs few passes) and one large block grid
+    big = [cg_call_case(257, 1901, cexp=1), cg_call_case(257, 1902, cexp=1, layout="csr", x0="random"),
+           cg_call_case(129, 1903, cexp=2, layout="coo", M="jacobi")]
+    if not ctx.quick:
+        big += [cg_call_case(1025, 1904, cexp=1), cg_call_case(513, 1905, cexp=2, layout="csr")]
+    for c in big:
+        guarded(ctx, c, check_cg)
+        ctx.note_case(("large", "cg", c["n"], c["layout"]), True)
+        ctx.count("large.cg")
+
+
+def corner_ties():
+    """(20) exact coincidences: singular values exactly AT the cut-off (dropped: the kernel keeps s > cut), equal
+    singular values, equal eigenvalues, a residual exactly equal to tol*|b|"""
+    def ls(solver, m, n, svs, **kw):
+        return {"kind": "ls", "solver": solver, "dtype": "float64", "batch": [], "m": m, "n": n,
+                "items": [{"kind": "diag", "svs": svs, "b": "generic", "bscale": 0, "seed": 2000 + m * 7 + n}], **kw}
+    L = []
+    for solver, cutrel, absolute in (("PINV:atol1", 0.5, True), ("PINV:atol", 0.5, True), ("PINV:rtol1", 0.01, False),
+                                     ("PINV:rtol", 0.01, False), ("PINV:pos", 0.01, False), ("LSTSQ:rcond", 0.01, False),
+                                     ("LSTSQ:pos", 0.01, False), ("PINV:both", 0.3, True)):
+        top = 4.0
+        c_ = cutrel if absolute else cutrel * top
+        L += [ls(solver, 3, 3, [top, c_, c_ / 2]), ls(solver, 4, 2, [top, c_]), ls(solver, 2, 4, [top, c_]),
+              ls(solver, 3, 3, [top, top, c_]), ls(solver, 3, 3, [top, 2.0, 1.0])]
+    for solver in ("PINV", "LSTSQ", "LSTSQ:gelsd", "PINV:herm"):
+        L += [ls(solver, 3, 3, [2.0, 2.0, 2.0]), ls(solver, 4, 4, [5.0, 5.0, 1.0, 1.0]), ls(solver, 3, 3, [1.0, 1.0, 0.0])]
+    L += [ls("PINV", 5, 3, [3.0, 3.0, 3.0]), ls("LSTSQ", 3, 5, [3.0, 3.0, 3.0])]
+    Cc = [{"kind": "chol", "upper": up, "dtype": "float64", "batch": [], "n": n,
+           "items": [{"kind": "spd", "seed": 2100 + n, "nrhs": 1, "cexp": 0, "dscale": 0}]} for up in (False, True) for n in (1, 3, 8)]
+    G = [cg_call_case(n, 2200 + n, spec="ident", b="34", x0="tie", tol=0.2, cexp=0) for n in (1, 2, 5)] + \
+        [cg_call_case(n, 2210 + n, spec="ident", b="34", x0="tie", tol=0.2, cexp=0, maxiter=3) for n in (2, 4)] + \
+        [cg_call_case(n, 2220 + n, spec="ident", b="generic", cexp=0) for n in (1, 3, 16)]
+    return L, Cc, G
+
+
+def check_subclass(ctx: Ctx):
+    """(21) user subclasses of the shipped solvers (and a plain nn.Module wrapper) must behave like the class they derive
+    from; an overriding constructor's own defaults must be honoured"""
+    s = S()
+
+    class MyCG(s.CG):
+        def __init__(self):
+            super().__init__(tol=1e-9)
+            self.note = "user"
+
+    class MyCG2(s.CG):
+        pass
+
+    class MyPINV(s.PINV):
+        def forward(self, A, b):
+            return super().forward(A, b)
+
+    class MyLSTSQ(s.LSTSQ):
+        pass
+
+    class MyChol(s.Cholesky):
+        def __init__(self):
+            super().__init__(upper=True)
+
+    class Wrap(torch.nn.Module):
+        def __init__(self, inner):
+            super().__init__()
+            self.inner = inner
+
+        def forward(self, A, b):
+            return self.inner(A, b)
+
+    g = gen(2100)
+    n = 30
+    A = spd_matrix(n, "log", 3, g)
+    b = torch.randn(n, 1, generator=g, dtype=torch.float64)
+    R = torch.randn(9, 5, generator=g, dtype=torch.float64)
+    rb = torch.randn(9, 1, generator=g, dtype=torch.float64)
+    pairs = [("CG", MyCG(), s.CG(tol=1e-9), A, b), ("CG", MyCG2(), s.CG(), A, b), ("CG", Wrap(s.CG()), s.CG(), A, b),
+             ("PINV", MyPINV(), s.PINV(), R, rb), ("LSTSQ", MyLSTSQ(), s.LSTSQ(), R, rb), ("LSTSQ", Wrap(MyLSTSQ()), s.LSTSQ(), R, rb),
+             ("Cholesky", MyChol(), s.Cholesky(upper=True), A, b)]
+    for name, user, ref, A_, b_ in pairs:
+        case = {"kind": "subclass", "solver": name, "cls": type(user).__name__}
+        ctx.note_case(("subclass", name, type(user).__name__), True)
+        ctx.count("subclass")
+        try:
+            xu, xr = user(A_.clone(), b_.clone()), ref(A_.clone(), b_.clone())
+        except Exception as e:
+            ctx.fail(case, f"raises: a user subclass of {name} raised: {type(e).__name__}: {str(e)[:80]}")
+            continue
+        if values_differ(xr, xu, (1e3 if name == "CG" else 1) * EPS["float64"]):
+            ctx.fail(case, f"subclass: {type(user).__name__}(…) (derived from / wrapping {name}) returns something else than {name} itself "
+                           f"(max difference {float((xr - xu).abs().max()):.3e})")
+        if name == "CG":
+            res = float((b_ - A_ @ xu).norm() / b_.norm())
+            tol_ = 1e-9 if isinstance(user, MyCG) else 1e-5
+            if res > tol_ * (1 + 1e-6) + 1e-12:
+                ctx.fail(case, f"cg-residual: {type(user).__name__} (tol {tol_}) returned x with |b-Ax|/|b| = {res:.3e}")
+
+
+def check_mode_orders(ctx: Ctx):
+    """(23) autograd modes in different ORDERS on a key (shape, dtype) that is fresh in the process: a module-level cache
+    filled under inference_mode / no_grad and reused by a later plain or autograd call shows only here.  Runs first."""
+    g = gen(2300)
+    s = S()
+    orders = (["inference", "plain", "rg", "nograd"], ["rg", "inference", "plain"], ["nograd", "graph", "inference", "plain"])
+    for oi, order in enumerate(orders):
+        for name, mk in (("PINV", lambda: s.PINV()), ("LSTSQ", lambda: s.LSTSQ()), ("Cholesky", lambda: s.Cholesky()), ("CG", lambda: s.CG())):
+            n = 17 + 2 * oi + {"PINV": 0, "LSTSQ": 20, "Cholesky": 40, "CG": 60}[name]      # a key not used before in this process
+            Z = torch.randn(n, n, generator=g, dtype=torch.float64)
+            A = Z @ Z.T / n + torch.eye(n, dtype=torch.float64)
+            b = torch.randn(n, 1, generator=g, dtype=torch.float64)
+            sol = mk()
+            ref = None
+            for mode in order:
+                case = {"kind": "mode-order", "solver": name, "order": order, "mode": mode}
+                ctx.count("mode-order")
+                try:
+                    x = call_in_mode(mode, sol, [A, b]) if mode != "plain" else sol(A.clone(), b.clone())
+                except Exception as e:
+                    if name == "CG" and mode in ("rg", "graph") and "out=" in str(e):
+                        continue        # observation: CG refuses operands that require grad
+                    ctx.fail(case, f"raises: {name} raised under autograd mode `{mode}` after the modes {order[:order.index(mode)]} on the same "
+                                   f"shape: {type(e).__name__}: {str(e)[:90]}")
+                    continue
+                if ref is None:
+                    ref = x
+                elif values_differ(ref, x, (1e3 if name == "CG" else 1) * EPS["float64"]):
+                    ctx.fail(case, f"grad-mode: {name} under `{mode}` (after {order[:order.index(mode)]}) returns different values")
+            ctx.note_case(("mode-order", name, oi), True)
 
 
 def check_empty_batch(ctx: Ctx):
@@ -2095,7 +2405,8 @@ def gen_ls_cases(ctx: Ctx, count):
         dtype = rng.choice(["float64", "float64", "float64", "float32"])
         solver = rng.choice(["PINV", "PINV", "PINV", "LSTSQ", "LSTSQ", "LSTSQ", "LSTSQ:gelsd", "LSTSQ:gelss", "LSTSQ:gelsy", "LSTSQ:gels",
                              "PINV:herm", "PINV:rtol", "PINV:atol", "PINV:rtol1", "PINV:atol1", "PINV:both", "PINV:herm+rtol",
-                             "PINV:pos", "LSTSQ:rcond", "LSTSQ:rcond1", "LSTSQ:pos"])
+                             "PINV:pos", "LSTSQ:rcond", "LSTSQ:rcond1", "LSTSQ:pos", "PINV:negatol", "PINV:negrtol", "PINV:zero",
+                             "LSTSQ:negrcond", "LSTSQ:zerorcond"])
         big = rng.random() < (0.15 if ctx.quick else 0.3)
         m = pick_dim(rng, 40 if big else 14)
         n = pick_dim(rng, 40 if big else 14)
@@ -2109,8 +2420,8 @@ def gen_ls_cases(ctx: Ctx, count):
             cmax = 8 if dtype == "float64" else 3
             if solver in HERM_CFG:
                 it = {"kind": "float", "cexp": rng.choice([0, 1, 2, 4, 6, cmax][:4 if dtype == "float32" else 6]), "sym": True}
-            elif solver == "LSTSQ:gels":      # the full-rank driver: full-rank systems only
-                it = {"kind": "float", "cexp": rng.choice([0, 1, 2, 3] + ([5, 8] if dtype == "float64" else []))}
+            elif solver in FULLRANK_CFG:      # full-rank driver / zero cut-off: full-rank systems only
+                it = {"kind": "float", "cexp": rng.choice([0, 1, 2, 3] + ([5, 6] if dtype == "float64" else []))}
             elif solver.startswith("LSTSQ") and m < n and rng.random() < 0.5:
                 it = {"kind": "float", "cexp": rng.choice([0, 1, 3, cmax])}
             elif c < 0.4:
@@ -2130,11 +2441,11 @@ def gen_ls_cases(ctx: Ctx, count):
                 it = {"kind": "float", "cexp": 0, "ascale": 0, "svs": sorted(svs, reverse=True)}
                 if solver in HERM_CFG:
                     it["sym"] = True
-            it["b"] = rng.choice(["generic", "generic", "consistent", "zero"])
+            it["b"] = rng.choice(["generic", "generic", "consistent", "zero", "negative", "sumzero"])
             it["bscale"] = rng.choice([0, 0, 0, -30, 30] + ([-100, 100] if dtype == "float64" else []))
             it["seed"] = rng.randrange(1 << 30)
             items.append(it)
-        if nb >= 3 and solver not in HERM_CFG and solver != "LSTSQ:gels" and rng.random() < 0.35:
+        if nb >= 3 and solver not in HERM_CFG and solver not in FULLRANK_CFG and rng.random() < 0.35:
             # mixed-regime batch: zero matrix, worst conditioning + extreme scale, rank-deficient graded, ordinary — side by side
             cmax = 8 if dtype == "float64" else 3
             items[0].update({"kind": "int", "r": 0, "cexp2": 0})
@@ -2142,7 +2453,8 @@ def gen_ls_cases(ctx: Ctx, count):
             items[2].update({"kind": "int", "r": max(min(m, n) - 1, 0), "cexp2": 20 if dtype == "float64" else 2})
             items[1]["bscale"] = -30
         cases.append({"kind": "ls", "solver": solver, "dtype": dtype, "batch": batch, "m": m, "n": n, "items": items,
-                      "grad": rng.choice(GRAD_MODES), "view": rng.choice(["plain", "plain", "T", "slice", "strided"]), "viewb": rng.choice(["plain", "plain", "T", "slice", "strided"])})
+                      "grad": rng.choice(GRAD_MODES), "defdt": rng.choice([None, None, None, "float64", "float32"]), "defdt": rng.choice([None, None, None, "float64", "float32"]),
+                      "view": rng.choice(["plain", "plain", "T", "slice", "strided"]), "viewb": rng.choice(["plain", "plain", "T", "slice", "strided"])})
         if nb > 1 and rng.random() < 0.2:
             cases[-1]["expand"] = rng.choice(["A", "b"])
         elif rng.random() < 0.06:
@@ -2166,12 +2478,13 @@ def run_ls(ctx: Ctx, cases):
             continue
         guarded(ctx, case, check_ls, lines)
         m, n = case["m"], case["n"]
-        kinds = tuple(sorted({(it["kind"], it.get("r", -1) if it["kind"] == "int" else it["cexp"], it["b"]) for it in case["items"]}))
+        kinds = tuple(sorted({(it["kind"], it.get("r", -1) if it["kind"] == "int" else it.get("cexp", -1), it["b"]) for it in case["items"]}))
         ctx.note_case(("ls", case["solver"], case["dtype"], len(case["batch"]), m, n, kinds), m >= 2 or n >= 2)
         ctx.count(f"ls.{case['solver']}.{case['dtype']}")
         ctx.count("ls.shape." + ("tall" if m > n else "wide" if m < n else "square"))
         for it in case["items"]:
-            ctx.count("ls.rank." + ("full" if it["kind"] == "float" or it["r"] == min(m, n) else ("zero" if it["r"] == 0 else "deficient")))
+            ctx.count("ls.rank." + ("diag" if it["kind"] == "diag" else "full" if it["kind"] == "float" or it["r"] == min(m, n)
+                                    else ("zero" if it["r"] == 0 else "deficient")))
         ctx.sample({"stream": "ls", "solver": case["solver"], "dtype": case["dtype"], "batch": case["batch"], "m": m, "n": n,
                     "item0": case["items"][0]}, cap=12)
     reps = ctx.driver.run([l[3] for l in lines])
@@ -2220,7 +2533,8 @@ def gen_chol_cases(ctx: Ctx, count):
                 it["cexp"] = min(ce, 8 if dtype == "float64" else 3)
                 it["scale"] = sc if dtype == "float64" else max(min(sc, 20), -20)
         cases.append({"kind": "chol", "upper": rng.random() < 0.5, "dtype": dtype, "batch": batch, "n": n, "items": its,
-                      "grad": rng.choice(GRAD_MODES), "view": rng.choice(["plain", "plain", "T", "slice", "strided"]), "viewb": rng.choice(["plain", "plain", "T", "slice", "strided"])})
+                      "grad": rng.choice(GRAD_MODES), "defdt": rng.choice([None, None, None, "float64", "float32"]), "defdt": rng.choice([None, None, None, "float64", "float32"]),
+                      "view": rng.choice(["plain", "plain", "T", "slice", "strided"]), "viewb": rng.choice(["plain", "plain", "T", "slice", "strided"])})
         if nb > 1 and rng.random() < 0.2:
             cases[-1]["expand"] = rng.choice(["A", "b"])
         elif rng.random() < 0.06 and n >= nrhs:
@@ -2262,10 +2576,11 @@ def gen_cg_cases(ctx: Ctx, count):
             "spec": rng.choice(["log", "cluster", "outlier", "uniform", "lap"]), "cexp": cexp,
             "ascale": rng.choice([0, 0, 0, -30, 30, 10] + ([-100, 100] if dtype == "float64" else [])),
             "bscale": rng.choice([0, 0, -30, 30, -10, 17] + ([-100, 100] if dtype == "float64" else [])),
-            "b": rng.choice(["generic"] * 6 + ["zero", "e0"]),
-            "x0": rng.choice(["none", "none", "none", "zeros", "random", "partial", "last", "far", "exact", "near+", "near-"]),
+            "b": rng.choice(["generic"] * 6 + ["zero", "e0", "negative", "sumzero"]),
+            "x0": rng.choice(["none", "none", "none", "zeros", "random", "partial", "last", "far", "exact", "near+", "near-",
+                              "negative", "sumzero"]),
             "eta": rng.choice([1e-3, 3e-2, 0.3]), "style": rng.choice(["pos", "pos", "kw", "kwonly", "mixed"]),
-            "grad": rng.choice(GRAD_MODES),
+            "grad": rng.choice(GRAD_MODES), "defdt": rng.choice([None, None, None, "float64", "float32"]),
             "M": Mk, "Mlayout": rng.choice(["dense", "dense", "csr", "coo"]),
             "tol": tol, "maxiter": maxiter, "bshape": rng.choice(["col", "col", "vec"]),
             "view": rng.choice(["plain", "plain", "T", "slice", "strided"]), "viewb": rng.choice(["plain", "plain", "T", "slice", "strided"]),
@@ -2311,7 +2626,7 @@ def gen_sparse_cases(ctx: Ctx, count):
             "pa": rng.choice(pats), "pb": rng.choice(pats),
             "da": rng.choice([0.0, 0.1, 0.3, 0.5, 0.8, 1.0]), "db": rng.choice([0.0, 0.1, 0.3, 0.5, 0.8, 1.0]),
             "disjoint": rng.random() < 0.08, "zeroval": rng.random() < 0.1, "stale": rng.random() < 0.25,
-            "style": rng.choice(["pos", "pos", "kw"]),
+            "style": rng.choice(["pos", "pos", "kw"]), "defdt": rng.choice([None, None, "float64"]),
             "data": rng.choice(["int", "int", "float"]), "dtype": rng.choice(["float64", "float32"]),
             "seed": rng.randrange(1 << 30)})
         if rng.random() < 0.06:      # beyond the documented block sizes 1..4 / small grids
@@ -2440,13 +2755,20 @@ def run_dispatch(ctx: Ctx, skip_merge_join=False):
 
 def run(ctx: Ctx):
     torch.set_num_threads(1)   # all systems are <= 40 x 40: threads only add contention on a shared box
+    check_mode_orders(ctx)          # first: its keys (shapes) must be fresh in the process
     C = corner_cases()
-    sparse_cases = C["sparse"] + gen_sparse_cases(ctx, ctx.pick(350, 7000))
+    tL, tC, tG = corner_ties()
+    C["ls"] += tL
+    C["chol"] += tC
+    C["cg"] += tG
+    sparse_cases = C["sparse"] + gen_sparse_cases(ctx, ctx.pick(300, 7000))
     alive = sparse_canary(ctx, sparse_cases)
     # deterministic corner corpus first (identical for every seed), then the random streams
     check_empty_batch(ctx)
     check_duck(ctx)
     check_cg_entry(ctx)
+    check_subclass(ctx)
+    check_large(ctx)
     run_chol_cases(ctx, C["chol"])
     run_ls(ctx, C["ls"])
     run_cg(ctx, C["cg"])
@@ -2455,10 +2777,10 @@ def run(ctx: Ctx):
     run_dispatch(ctx, skip_merge_join=not alive)
     if alive:
         run_sparse(ctx, sparse_cases)
-    run_chol_cases(ctx, gen_chol_cases(ctx, ctx.pick(250, 5000)))
-    run_ls(ctx, gen_ls_cases(ctx, ctx.pick(250, 5000)))
-    run_cg(ctx, gen_cg_cases(ctx, ctx.pick(350, 7000)))
-    run_history(ctx, decorate_histories(ctx.rng, gen_history_cases(ctx, ctx.pick(30, 700))))
+    run_chol_cases(ctx, gen_chol_cases(ctx, ctx.pick(200, 5000)))
+    run_ls(ctx, gen_ls_cases(ctx, ctx.pick(200, 5000)))
+    run_cg(ctx, gen_cg_cases(ctx, ctx.pick(300, 7000)))
+    run_history(ctx, decorate_histories(ctx.rng, gen_history_cases(ctx, ctx.pick(25, 700))))
     own = [c for c in C["ls"][:13] + C["chol"][:17] + C["cg"][:16] if not c.get("malformed")]
     own += [c for c in gen_ls_cases(ctx, ctx.pick(10, 250)) if not c.get("malformed")] + gen_chol_cases(ctx, ctx.pick(10, 250)) + \
         gen_cg_cases(ctx, ctx.pick(10, 250))
@@ -2517,6 +2839,12 @@ def replay(ctx: Ctx, case) -> bool:
         check_duck(ctx)
     elif kind == "cg-entry":
         check_cg_entry(ctx)
+    elif kind == "large":
+        check_large(ctx)
+    elif kind == "subclass":
+        check_subclass(ctx)
+    elif kind == "mode-order":
+        check_mode_orders(ctx)
     elif kind == "import":
         try:
             O()
